@@ -346,6 +346,8 @@ func (im *Impl) Exec(line string) (out string) {
 		return "ok"
 	case "setrev":
 		return res(im.S.SetRevisionCounter(int64(atoi(w[1]))))
+	case "cleaner":
+		return im.cleaner(w[1], len(w) > 2 && w[2] == "fault")
 	case "ckpt":
 		// request lines name the add-time snapshots of earlier rebuilds by their aliases; the replica
 		// must record the real disk name, as the controller would
